@@ -52,7 +52,7 @@ int FSolver::Harmonic2D(CBigComplexLinProb &L,bool verbose)
     bool LinearFlag=true;
     int bIncremental=MS_LEGACY_FALSE;
 
-    if (!previousSolutionFile.empty()) bIncremental = MS_LEGACY_TRUE;
+    if (!previousSolutionFile.empty() && PrevType != 0) bIncremental = MS_LEGACY_TRUE;
 
     res=0;
 
